@@ -103,6 +103,8 @@ def replay(mod, inst, witness, check_name):
         out["notes"] = {k: repr(v)[:300] for k, v in cc.notes.items()}
     except ReplayInvalid as e:
         out["note"] = "replay invalid: %s" % e
+    except core.SrxControl as e:
+        out["note"] = "replay left the harness bound: %r" % (e,)
     except Exception as e:
         out["note"] = "replay raised %r" % (e,)
         out["tb"] = traceback.format_exc()[-1500:]
